@@ -1,0 +1,28 @@
+//go:build verif
+
+package main
+
+import (
+	"math/rand"
+	"os"
+	"strconv"
+
+	"github.com/awalterschulze/goderive/derive"
+)
+
+// verifOrder permutes the plugin registration order with the seed in VERIF_PLUGIN_ORDER
+// (identity when unset). Verification hook: the real main registers plugins in one fixed order,
+// while dispatch must not depend on that order.
+func verifOrder(ps []derive.Plugin) []derive.Plugin {
+	s := os.Getenv("VERIF_PLUGIN_ORDER")
+	if s == "" {
+		return ps
+	}
+	seed, err := strconv.ParseInt(s, 10, 64)
+	if err != nil {
+		return ps
+	}
+	r := rand.New(rand.NewSource(seed))
+	r.Shuffle(len(ps), func(i, j int) { ps[i], ps[j] = ps[j], ps[i] })
+	return ps
+}
